@@ -59,3 +59,44 @@ Section Conc.
   Definition legal (now0 : N) (log : list (op * out)) : Prop :=
     outs_of (spec_run D empty now0 (map fst log)) = map snd log.
 End Conc.
+
+(* ------------------------------------------------------------------------------------------ *)
+(* CleanupExpired                                                                              *)
+(* ------------------------------------------------------------------------------------------ *)
+(* memory_ops.go CleanupExpired (also the body of the StartCleanup ticker goroutine) is ONE critical section:
+   m.mu.Lock(); scan and delete with the expiry test re-evaluated per key; Unlock.  In [tstep] it is therefore
+   an ordinary one-step operation ([two_phase KCleanup = None], [mem_step ... KCleanup = purge now m]).
+
+   The variant below is what a "scan under RLock, delete later under Lock without re-checking" rewrite would be:
+   the first section only collects the set of keys found expired, the second deletes every collected key —
+   whatever a writer stored there in between.  It is kept to be refuted (Proofs/KV.two_phase_cleanup_refuted). *)
+Record local2 := { l2_base : local; l2_sweep : option (key -> bool) }.
+
+Section Conc2.
+  Variable D : N.
+  Variable V : kvariant.
+
+  Definition expired_set (m : kvmap) (now : N) : key -> bool :=
+    fun k => match m k with Some it => expired now it | None => false end.
+  Definition delete_set (m : kvmap) (P : key -> bool) : kvmap :=
+    fun k => if P k then None else m k.
+
+  Definition tstep_two_phase_cleanup (lo : local2) (sh : shared) : local2 * shared :=
+    match l2_sweep lo with
+    | Some P =>
+        ({| l2_base := l2_base lo; l2_sweep := None |},
+         {| sh_m := delete_set (sh_m sh) P; sh_now := sh_now sh; sh_log := sh_log sh |})
+    | None =>
+        match lo_pending (l2_base lo), lo_prog (l2_base lo) with
+        | None, KCleanup :: rest =>
+            ({| l2_base := {| lo_prog := rest; lo_pending := None; lo_seen := lo_seen (l2_base lo) ++ [(KCleanup, OOk)] |};
+                l2_sweep := Some (expired_set (sh_m sh) (sh_now sh)) |},
+             {| sh_m := sh_m sh; sh_now := sh_now sh; sh_log := sh_log sh ++ [(KCleanup, OOk)] |})
+        | _, _ =>
+            let '(b, sh') := tstep D V (l2_base lo) sh in ({| l2_base := b; l2_sweep := None |}, sh')
+        end
+    end.
+
+  Definition init2 (now0 : N) (progs : list (list op)) : shared * list local2 :=
+    (init_shared now0, map (fun p => {| l2_base := init_local p; l2_sweep := None |}) progs).
+End Conc2.
